@@ -18,6 +18,8 @@
 //     8 4 ty n v..                 accu = "["; xconvert(accu, vec); accu += "]"; string_cast(accu) -> |accu| accu ok m elems..
 // ty: 0 bool 1 char 2 int 3 unsigned 4 long 5 unsigned long 6 long long 7 unsigned long long
 //     8 Head_t 9 Body_t 10 Value_t 11 Heuristic_t 12 Directive_t 13 Theory_t 14 Tuple_t 15 Clause_t 16 Statistics_t
+//     17 Level_t 18 Sparse_t 19 Neg_t 20 Off_t 21 Unord_t 22 One_t: enumerations declared below with the PUBLIC macros
+//     (scalars: ops 0 1 6; lists: ops 4 5; pairs (ops 2 3): <E,int>, <int,E>, <E,E>)
 #include "common.h"
 #include <cerrno>
 #include <climits>
@@ -27,6 +29,18 @@
 #include <potassco/theory_data.h>
 #include <potassco/clingo.h>
 using namespace Potassco;
+
+// Enumerations declared with the PUBLIC macros of potassco/platform.h, in shapes none of the library's own enumerations has
+// (those all start at their min, most are dense).  POTASSCO_ENUM_CONSTANTS fixes min = 0, POTASSCO_ENUM_CONSTANTS_T takes the
+// caller's minVal; max is the last enumerator; the key table is the stringified argument list.
+// tools/consts/C16.py (model) and props/C16.py (oracle) each read these declarations from THIS file; harness op 6 reports what
+// enumClass() really holds.
+struct Level_t  { POTASSCO_ENUM_CONSTANTS(Level_t, Low = 1, Mid = 2, High = 3); };            // smallest constant above min (0)
+struct Sparse_t { POTASSCO_ENUM_CONSTANTS(Sparse_t, A = 2, B = 3, C = 7, D); };               // holes 4 5 6, implicit last value, 0 and 1 below the first constant
+struct Neg_t    { POTASSCO_ENUM_CONSTANTS_T(Neg_t, int, -5, M3 = -3, M1 = -1, P2 = 2); };     // negative minVal that is no constant, holes on both sides of 0
+struct Off_t    { POTASSCO_ENUM_CONSTANTS_T(Off_t, int, 2, X = 4, Y, Z = 8); };               // positive minVal that is no constant
+struct Unord_t  { POTASSCO_ENUM_CONSTANTS(Unord_t, Q = 5, R = 2, U, T = 2, S = 9); };         // not increasing, an alias (T == R), implicit value after a decrease
+struct One_t    { POTASSCO_ENUM_CONSTANTS(One_t, Only = 4); };                                // a single constant above min
 
 template <class T> struct Tag { typedef T type; };
 template <class T, bool isEnum> struct TrImpl;
@@ -59,6 +73,7 @@ template <class T> struct IsEnum { enum { value = 0 }; };
 #define C16_ENUM(T) template <> struct IsEnum<T> { enum { value = 1 }; }
 C16_ENUM(Head_t); C16_ENUM(Body_t); C16_ENUM(Value_t); C16_ENUM(Heuristic_t); C16_ENUM(Directive_t);
 C16_ENUM(Theory_t); C16_ENUM(Tuple_t); C16_ENUM(Clause_t); C16_ENUM(Statistics_t);
+C16_ENUM(Level_t); C16_ENUM(Sparse_t); C16_ENUM(Neg_t); C16_ENUM(Off_t); C16_ENUM(Unord_t); C16_ENUM(One_t);
 template <class T> struct Tr : TrImpl<T, IsEnum<T>::value != 0> {};
 
 // value after normalisation as the model does it (static_cast<T>(long long))
@@ -83,9 +98,28 @@ template <class F> bool withScalar(ll ty, F f) {
 		case 14: f(Tag<Tuple_t>()); return true;
 		case 15: f(Tag<Clause_t>()); return true;
 		case 16: f(Tag<Statistics_t>()); return true;
+		case 17: f(Tag<Level_t>()); return true;
+		case 18: f(Tag<Sparse_t>()); return true;
+		case 19: f(Tag<Neg_t>()); return true;
+		case 20: f(Tag<Off_t>()); return true;
+		case 21: f(Tag<Unord_t>()); return true;
+		case 22: f(Tag<One_t>()); return true;
 		default: return false;
 	}
 }
+// the enumerations declared in this file
+template <class F> bool withNewEnum(ll ty, F f) {
+	switch (ty) {
+		case 17: f(Tag<Level_t>()); return true;
+		case 18: f(Tag<Sparse_t>()); return true;
+		case 19: f(Tag<Neg_t>()); return true;
+		case 20: f(Tag<Off_t>()); return true;
+		case 21: f(Tag<Unord_t>()); return true;
+		case 22: f(Tag<One_t>()); return true;
+		default: return false;
+	}
+}
+static bool isNewEnum(ll ty) { return ty >= 17 && ty <= 22; }
 // element types of pairs and vectors
 template <class F> bool withComp(ll ty, F f) {
 	switch (ty) {
@@ -101,6 +135,17 @@ template <class F> bool withComp(ll ty, F f) {
 	}
 }
 static bool isComp(ll ty) { return ty == 0 || ty == 1 || ty == 2 || ty == 3 || ty == 6 || ty == 7 || ty == 10 || ty == 14; }
+// element types of vectors (ops 4, 5): the above and the enumerations declared in this file
+template <class F> bool withList(ll ty, F f) { return isNewEnum(ty) ? withNewEnum(ty, f) : withComp(ty, f); }
+static bool isList(ll ty) { return isComp(ty) || isNewEnum(ty); }
+// pairs (ops 2, 3): <A,B> over the element types above, and <E,int>, <int,E>, <E,E> for the enumerations declared in this file
+template <class F> bool withPair(ll ta, ll tb, F f) {
+	if (isComp(ta) && isComp(tb)) { withComp(ta, [&](auto a) { withComp(tb, [&](auto b) { f(a, b); }); }); return true; }
+	if (isNewEnum(ta) && tb == 2)  { withNewEnum(ta, [&](auto a) { f(a, Tag<int>()); }); return true; }
+	if (ta == 2 && isNewEnum(tb))  { withNewEnum(tb, [&](auto b) { f(Tag<int>(), b); }); return true; }
+	if (isNewEnum(ta) && ta == tb) { withNewEnum(ta, [&](auto a) { f(a, a); }); return true; }
+	return false;
+}
 static void setErrno(bool e) { errno = e ? ERANGE : 0; }
 
 template <class T> void opParse(Obs& o, bool e, const std::string& s) {
@@ -295,24 +340,22 @@ int main() {
 			}
 			else if (op == 2) {
 				ll ta = c.next(), tb = c.next(); bool e = c.next() != 0; ll len = c.next(); std::string s = c.bytes(len > 0 ? (size_t)len : 0);
-				if (!isComp(ta) || !isComp(tb)) o.add(-998);
-				else withComp(ta, [&](auto a) { withComp(tb, [&](auto b) { opParsePair<typename decltype(a)::type, typename decltype(b)::type>(o, e, s); }); });
+				if (!withPair(ta, tb, [&](auto a, auto b) { opParsePair<typename decltype(a)::type, typename decltype(b)::type>(o, e, s); })) o.add(-998);
 			}
 			else if (op == 3) {
 				ll ta = c.next(), tb = c.next(); ll va = c.next(), vb = c.next();
-				if (!isComp(ta) || !isComp(tb)) o.add(-998);
-				else withComp(ta, [&](auto a) { withComp(tb, [&](auto b) { opPrintPair<typename decltype(a)::type, typename decltype(b)::type>(o, va, vb); }); });
+				if (!withPair(ta, tb, [&](auto a, auto b) { opPrintPair<typename decltype(a)::type, typename decltype(b)::type>(o, va, vb); })) o.add(-998);
 			}
 			else if (op == 4) {
 				ll ty = c.next(); bool e = c.next() != 0; ll len = c.next(); std::string s = c.bytes(len > 0 ? (size_t)len : 0);
-				if (!isComp(ty)) o.add(-998);
-				else withComp(ty, [&](auto t) { opParseList<typename decltype(t)::type>(o, e, s); });
+				if (!isList(ty)) o.add(-998);
+				else withList(ty, [&](auto t) { opParseList<typename decltype(t)::type>(o, e, s); });
 			}
 			else if (op == 5) {
 				ll ty = c.next(); ll n = c.next(); std::vector<ll> vs;
 				for (ll i = 0; i < n && c.more(); ++i) vs.push_back(c.next());
-				if (!isComp(ty)) o.add(-998);
-				else withComp(ty, [&](auto t) { opPrintList<typename decltype(t)::type>(o, vs); });
+				if (!isList(ty)) o.add(-998);
+				else withList(ty, [&](auto t) { opPrintList<typename decltype(t)::type>(o, vs); });
 			}
 			else if (op == 6) {
 				ll k = c.next();
@@ -329,6 +372,7 @@ int main() {
 				else if (k == 14) opMeta<Tuple_t>(o);
 				else if (k == 15) opMeta<Clause_t>(o);
 				else if (k == 16) opMeta<Statistics_t>(o);
+				else if (isNewEnum(k)) withNewEnum(k, [&](auto t) { opMeta<typename decltype(t)::type>(o); });
 				else o.add(-998);
 			}
 			else if (op == 7) {
